@@ -141,3 +141,20 @@ Proof.
   split; [repeat constructor|]. split; [unfold fresh_open; vm_compute; discriminate|].
   vm_compute. repeat split; reflexivity.
 Qed.
+
+(** Link between the theorems above and the correspondence check, modulo the known class: on
+    every well-formed case, if the implementation's observed instrument states agree with the
+    model ([corr_b], within the stated Decimal tolerances), every verdict of the property oracle
+    is "accepted" (0) or "known class 1: position freshly opened by the last fill storing 0"
+    (1) - so [judge] is 0 or 101 and the oracle is no stricter than the model. *)
+From BV Require Proofs.CorrC15 Corr.C15.
+Theorem C15_oracle_sound : forall c,
+  Corr.C15.wf_case c = true -> Corr.C15.corr_b c = true ->
+  forallb (fun v => N.eqb v 0 || N.eqb v 1) (Corr.C15.verdicts c) = true /\
+  (Corr.C15.prop_b c = true \/ Corr.C15.known_b c = 1%N) /\
+  (Corr.C15.judge c = 0%N \/ Corr.C15.judge c = 101%N).
+Proof.
+  intros c Hwf Hc. split; [exact (Proofs.CorrC15.verdicts_sound c Hwf Hc)|].
+  split; [exact (Proofs.CorrC15.oracle_sound c Hwf Hc)|exact (Proofs.CorrC15.judge_sound c Hwf Hc)].
+Qed.
+Print Assumptions C15_oracle_sound.
